@@ -35,7 +35,7 @@ only from those methods; (count lint) the counters are compared only with the co
 representative of all depths. Calls on other objects are neutral (listed in evidence); branching on their results is
 an analysis error, not a guess.
 Added while testing against seeded changes: K8-failed-release-forgets: a failing physical unlock on the last unlock
-propagates and leaves CountedLock / LockableFiles unlocked; K3-acquisition-unwinds: DirStateWorkingTree.lock_read /
+propagates and leaves CountedLock / LockableFiles unlocked; K3-acquisition-unwinds: (git sibling: GitWorkingTree._lock_write_tree records mode/count only after index.lock is held;) DirStateWorkingTree.lock_read /
 _lock_self_write release the control-files lock and the branch when a later acquisition step fails.
 Does not decide: Repository/Branch/WorkingTree objects built on these wrappers (they delegate), nor failures of the
 unrelated calls made while locking.
@@ -398,6 +398,16 @@ def run(ctx):
         br = calling(g, attr="unlock", recv="self.branch")
         xs2 = [b for n_ in acq for (b, l_) in g.succ[n_] if l_ == "X"] + xs
         ctx.check("K3-acquisition-unwinds", where, bool(br) and g.raise_exit not in g.reach(xs2, avoid=set(br), include_src=True), "any failure after the branch was locked unlocks the branch again")
+    # ---- sibling (git working tree): the bookkeeping says "locked" only once the lock file is held ------------------------
+    # GitWorkingTree._lock_write_tree: no assignment to _lock_mode / _lock_count lies on a path *before* the fallible
+    # acquisition of index.lock (GitFile(..., "wb")) — otherwise a refused attempt leaves the object claiming a write lock
+    GW = "breezy/git/workingtree.py"
+    fng, gg, whereg = fn_cfg(ctx, GW, "GitWorkingTree._lock_write_tree")
+    acqg = need(whereg, calling(gg, name="GitFile"), "GitFile(<index>, 'wb')")
+    setg = [n.id for n in gg.nodes if n.kind == "stmt" and isinstance(n.ast, ast.Assign) and norm(n.ast.targets[0]) in ("self._lock_mode", "self._lock_count") and not (isinstance(n.ast.value, ast.Constant) and n.ast.value.value in (None, 0))]
+    ggx = gg.without_exc_edges()
+    early = sorted(i for i in setg if set(acqg) & ggx.reach([i]))
+    ctx.check("K3-acquisition-unwinds", whereg, bool(setg) and not early, "the lock mode/count are recorded only after index.lock was obtained", construct="; ".join(gg.nodes[i].text() for i in early), message="GitWorkingTree._lock_write_tree records the write lock (" + "; ".join(gg.nodes[i].text() for i in early) + ") before it tries to take index.lock: when that is refused (LockContention) the object still claims to be write-locked, later lock calls only bump the count and never hold the lock file")
     ctx.extra["typestate"] = stats
     ctx.extra["states"] = sum(s["states"] for s in stats.values())
     ctx.extra["transitions"] = sum(s["transitions"] for s in stats.values())
@@ -410,6 +420,7 @@ LF = "breezy/bzr/lockable_files.py"
 PR = "breezy/bzr/pack_repo.py"
 
 MUTANTS = [
+    Mutant("git tree records the write lock before taking index.lock", "breezy/git/workingtree.py", "        if not self._lock_mode:\n            try:\n                self._index_file = GitFile(", "        if not self._lock_mode:\n            self._lock_mode = \"w\"\n            self._lock_count = 1\n            try:\n                self._index_file = GitFile(", expect="K3-acquisition-unwinds"),
     Mutant("dirstate lock failure leaves the control files locked", "breezy/bzr/workingtree_4.py", "                self._repo_supports_tree_reference = getattr(\n                    self.branch.repository._format, \"supports_tree_reference\", False\n                )\n            except BaseException:\n                self._control_files.unlock()\n                raise\n        except BaseException:\n            self.branch.unlock()\n            raise\n        return LogicalLockResult(self.unlock)", "                self._repo_supports_tree_reference = getattr(\n                    self.branch.repository._format, \"supports_tree_reference\", False\n                )\n            except BaseException:\n                raise\n        except BaseException:\n            self.branch.unlock()\n            raise\n        return LogicalLockResult(self.unlock)", expect="K3-acquisition-unwinds", count=2),
     Mutant("CountedLock releases before forgetting the lock", "breezy/counted_lock.py", "            self._lock_mode = None\n            self._lock_count -= 1\n            self._real_lock.unlock()\n", "            self._real_lock.unlock()\n            self._lock_mode = None\n            self._lock_count -= 1\n", expect="K8-failed-release-forgets"),
     Mutant("CountedLock: re-entry resets the count", CL, "        if self._lock_mode:\n            self._lock_count += 1\n        else:\n            self._real_lock.lock_read()", "        if self._lock_mode:\n            self._lock_count = 1\n        else:\n            self._real_lock.lock_read()", expect=["K8-release-once", "K8-acquire-once", "K8-initial-state", "K8-overunlock-refused"]),
